@@ -135,6 +135,12 @@ package shard
 //@ ghost pred metaRemoved() bool
 //@ ghost pred cacheDropAttempted() bool
 //@ ghost pred blobDeleteAttempted() bool
+//@ ghost pred withWriteCache() bool
+//@ callrule c09_write_cache_presence in (*Shard).deleteObjs
+//@   property C09, C15
+//@   callee (*shard.Shard).hasWriteCache
+//@   pureeffect
+//@   defines result == withWriteCache()
 
 //@ callrule c15_data_step_of_put in (*Shard).Put
 //@   property C15
@@ -156,7 +162,7 @@ package shard
 //@   property C09, C15
 //@   callee (*metabase.DB).Delete
 //@   pureeffect
-//@   requires [cached_copies_dropped_before_metadata] hasWriteCache ==> cacheDropAttempted()
+//@   requires [cached_copies_dropped_before_metadata] withWriteCache() ==> cacheDropAttempted()
 //@   defines err == nil ==> metaRemoved()
 //@ callrule c09_blob_after_metadata in (*Shard).deleteObjs
 //@   property C09, C15
@@ -166,7 +172,7 @@ package shard
 //@   defines blobDeleteAttempted()
 //@ callrule c09_delete_collaborators in (*Shard).deleteObjs
 //@   property C09, C15
-//@   callee (*shard.Shard).hasWriteCache, (*shard.Shard).addObjectCounter, (*shard.Shard).addToContainerSize, (*shard.Shard).addToPayloadCounter, shard.logOp, id.NewAddress, (id.ID).*, (mode.Mode).*
+//@   callee (*shard.Shard).addObjectCounter, (*shard.Shard).addToContainerSize, (*shard.Shard).addToPayloadCounter, shard.logOp, id.NewAddress, (id.ID).*, (mode.Mode).*
 //@   pureeffect
 //@ func (*Shard).deleteObjs
 //@   property C09, C15
